@@ -221,6 +221,16 @@ def run_c19(tier, seed):
                 runs.append(dict(id=i, threads=th, tick_ns=1, t0_secs=0, lags=[], capacity=1, delay_point=dp,
                                  delay_us=us, cmds=[dict(c="process", kind="action", target=1, prog=2)]))
     validate_runs(chk, prop, b, runs, "flood chain + failure, delay sweep", wd, "c19_flood4")
+    # 3a. a model suspended in the middle of a broadcast (pending per-recipient send futures) at the time of the failure
+    b = BENCHES["flood5"]
+    runs, i = [], 0
+    for dp, us in ((0, 0), (27, 300), (10, 300), (11, 300)):
+        for th in (1, 2, 4, 16) if thorough else (1, 2, 4):
+            for _ in range(reps if th > 1 else 1):
+                i += 1
+                runs.append(dict(id=i, threads=th, tick_ns=1, t0_secs=0, lags=[], capacity=1, delay_point=dp,
+                                 delay_us=us, cmds=[dict(c="process", kind="action", target=1, prog=2)]))
+    validate_runs(chk, prop, b, runs, "broadcast suspended at a failure", wd, "c19_flood5")
     # 3b. dropped right after a step time-out, while the overrunning (but terminating) handler is still running
     b = BENCHES["faults"]
     runs = []
